@@ -43,10 +43,13 @@ def _spec(module):
             'rules': [lambda units, R: bnd3._run(units['cJSON.c'], names3, R, 0)],
         }]
     if module == 'tree':
-        from . import tree
+        from . import tree, shape
         return [{
             'units': {'cJSON.c': 'tree_bad.c', 'cJSON_Utils.c': 'utils_min.c'},
-            'rules': [tree.tab3, tree.tab14, tree.eff6, tree.c12_structure, tree.lst4, tree.lst2, tree.lst3],
+            'rules': [tree.tab3, tree.tab14, tree.eff6, tree.c12_structure, tree.lst4, tree.lst2, tree.lst3,
+                      lambda units, R: shape.shp1(units, R, editors=[
+                          ('cJSON.c', 'bad_SHP1_detach', lambda u, f: shape._cases_detach_ptr(u, f, stray_case=False), 'remove the given element'),
+                          ('cJSON.c', 'good_unlink', lambda u, f: shape._cases_detach_ptr(u, f, stray_case=False), 'remove the given element')])],
         }]
     if module == 'own':
         from . import own, parse
